@@ -98,7 +98,8 @@ class Instrument:
 def build_task(scn):
     cls = {'A': tasks.VTask, 'B': tasks.VTaskB, 'C': tasks.VTaskC}[scn.get('tcls', 'A')]
     return tasks.make_task(scn['proto'], minmax=scn.get('minmax', 'min'), obj=scn.get('obj', 'quad'),
-                           neg=scn.get('neg', False), seed=scn.get('task_seed'), weights=scn.get('weights'), cls=cls)
+                           neg=scn.get('neg', False), seed=scn.get('task_seed'), weights=scn.get('weights'), cls=cls,
+                           scribble=scn.get('scribble', False))
 
 
 def build_optimizer(scn):
